@@ -21,7 +21,7 @@ struct tramp {
 };                           /* 576 */
 
 /* Both trampolines are themselves System V functions.  tramp_sysv calls t->fn with the System V
- * convention, tramp_win64 with the Microsoft x64 convention.  Not reentrant (one global slot). */
+ * convention, tramp_win64 with the Microsoft x64 convention.  One call at a time per thread (thread-local slot). */
 void tramp_sysv(struct tramp *t);
 void tramp_win64(struct tramp *t);
 
